@@ -185,6 +185,12 @@ def run_shared(cfg, seed, policy="random", script=(), p_switch=0.3, census=False
                 cbs = []
                 ar.add_callback(lambda r, cbs=cbs: cbs.append(sched.now))
                 obs["callbacks"][token] = cbs
+                if "x" in mode:
+                    # an application callback that raises: whichever thread dispatches the reply gets the error, and the reply HAS been
+                    # processed - the waiter must still be woken
+                    def raiser(r):
+                        raise RuntimeError("callback of the application failed")
+                    ar.add_callback(raiser)
                 keep.append(ar)
                 if mode.startswith("s"):
                     collect(token, ar, ci)
